@@ -838,6 +838,55 @@ func verifC14RandTrace(r *vrand.Rand, role refws.Role, comp bool, maxFrames int)
 	return frames
 }
 
+// verifC14LongTrace: a conformant stream of n frames without a Close — a connection that stays up: fragmented messages
+// of small frames, pings and pongs in between, every 5000th frame large.
+func verifC14LongTrace(r *vrand.Rand, role refws.Role, comp bool, n int) []refws.Frame {
+	frames := make([]refws.Frame, 0, n+1)
+	masked := role == refws.RoleServer
+	open := false
+	for len(frames) < n {
+		f := refws.Frame{Masked: masked}
+		r.Fill(f.Key[:])
+		switch k := r.Intn(10); {
+		case k == 0:
+			f.Opcode, f.Fin, f.Payload = refws.OpPing, true, r.Bytes(r.Pick(0, 1, 5, 125))
+		case k == 1:
+			f.Opcode, f.Fin, f.Payload = refws.OpPong, true, r.Bytes(r.Pick(0, 3, 125))
+		default:
+			if open {
+				f.Opcode = refws.OpCont
+			} else {
+				f.Opcode = byte(r.Pick(refws.OpText, refws.OpBinary))
+				f.Rsv1 = comp && r.Chance(1, 3)
+			}
+			f.Fin = r.Chance(2, 3)
+			size := r.Pick(0, 1, 2, 17, 60, 125, 126, 140)
+			if len(frames)%5000 == 4999 {
+				size = r.Pick(65535, 65536, 70000)
+			}
+			off := r.Intn(1000)
+			if off+size > len(verifC14Fill) {
+				off = 0
+			}
+			f.Payload = verifC14Fill[off : off+size]
+			if f.Rsv1 && f.Fin && len(f.Payload) == 0 {
+				f.Payload = verifC14Fill[off : off+1]
+			}
+			open = !f.Fin
+		}
+		frames = append(frames, f)
+	}
+	if open {
+		f := refws.Frame{Masked: masked, Opcode: refws.OpCont, Fin: true, Payload: verifC14Fill[:7]}
+		r.Fill(f.Key[:])
+		frames = append(frames, f)
+	}
+	if comp {
+		verifC14Compress(frames)
+	}
+	return frames
+}
+
 func TestVerif_C14_Random(t *testing.T) {
 	m := mon.New("C14", "random")
 	defer m.Finish(t)
@@ -885,6 +934,22 @@ func TestVerif_C14_Random(t *testing.T) {
 			m.Sample(map[string]interface{}{"trace": i, "role": role.String(), "compression": comp, "limit": cfg.limit, "frames": refws.Describe(frames), "wire_bytes": len(wire),
 				"model": map[string]interface{}{"delivered": len(exp.Messages), "pongs": len(exp.Pongs), "terminal": exp.Term.String(), "rule": exp.Reason, "at_frame": exp.TermFrame}})
 		}
+	})
+	// long connections: 70 000 conformant frames without a Close, everything must be delivered / answered
+	nlong := m.N(4, 16)
+	m.Require("long_traces", int64(nlong))
+	mon.Parallel(nlong, func(w, i int) {
+		r := m.Rand("long", i)
+		role := refws.Role(i % 2)
+		comp := i%4 >= 2
+		frames := verifC14LongTrace(r, role, comp, 70000)
+		wire, _ := refws.Gen(frames)
+		cfg := verifC14Cfg{role: role, comp: comp, readBuf: r.Pick(125, 1024, 4096), chunk: r.Pick(0, 0, 7), mode: r.Intn(2)}
+		if i%4 == 1 {
+			cfg.limit = 100000 // above every message of the trace: the limit's bookkeeping runs, nothing may trip it
+		}
+		verifC14Eval(accFor(w), cfg, frames, wire, -1, func() string { return fmt.Sprintf("long:%d", i) })
+		accFor(w).Count("long_traces", 1)
 	})
 	mon.Parallel(ncut, func(w, i int) {
 		r := m.Rand("cut", i)
